@@ -160,6 +160,7 @@ type Slot struct {
 	Seeds   []int `json:"seeds"`
 	BufLen  int   `json:"buflen,omitempty"`  // 0: the case's buflen
 	PktInfo bool  `json:"pktinfo,omitempty"` // an IP_PKTINFO control message in front
+	CInt    bool  `json:"cint,omitempty"`    // UDP_GRO data as the kernel writes it: a C int (4 bytes), not 2 bytes
 }
 
 type Case struct {
@@ -837,6 +838,10 @@ func runRecv(c *Case) {
 			ctl = append(ctl, pktinfo(false)...)
 		}
 		switch {
+		case s.GSO > 0 && s.CInt:
+			d := make([]byte, 4)
+			binary.NativeEndian.PutUint32(d, uint32(s.GSO))
+			ctl = append(ctl, cmsg(unix.SOL_UDP, unix.UDP_GRO, d)...)
 		case s.GSO > 0:
 			ctl = append(ctl, groCmsg(uint16(s.GSO))...)
 		case s.GSO == -1:
@@ -850,11 +855,17 @@ func runRecv(c *Case) {
 		if s.Port != 0 {
 			msgs[i].Addr = &net.UDPAddr{IP: net.IPv4(127, 0, 0, 1).To4(), Port: s.Port}
 		}
-		g, err := conn.VerifGetGSOSize(oob[:len(ctl)])
-		if err != nil {
-			g = ctlError
+		// The model is told what the control message SAYS (the segment size put
+		// into it, 0 without one, an error for the malformed one), not what the
+		// real getGSOSize makes of it: a parser defect must show as a difference.
+		switch {
+		case s.GSO > 0:
+			ctls[i] = s.GSO & 0xffff
+		case s.GSO == -1:
+			ctls[i] = ctlError
+		default:
+			ctls[i] = 0
 		}
-		ctls[i] = g
 		inputs[i] = append([]byte(nil), buf...)
 	}
 	n, status := callSplit(msgs, c.First)
@@ -958,6 +969,7 @@ func trainCase(gen string, L, f, buflen, seedBase int, trains []train) *Case {
 		}
 		if len(tr.sizes) >= 2 {
 			s.GSO = tr.sizes[0]
+			s.CInt = (seedBase+t)%2 == 0
 		}
 		// the slot the kernel filled holds the whole train; the other slots
 		// only ever receive single datagrams
@@ -1156,6 +1168,23 @@ func genRecv(r *rand.Rand, g int) *Case {
 		}
 		return c
 	}
+}
+
+// bigRecv: trains whose segment size lies around 2^15 and near the maximum
+// payload (the UDP_GRO value is a 16-bit quantity in a C int), control message
+// written both ways.
+func bigRecv() []*Case {
+	var out []*Case
+	for k, sizes := range [][]int{{32767, 32740}, {32768, 32739}, {32769, 100}, {40000, 20000}, {65000, 507}, {65506, 1}, {16384, 16384, 16384, 16355}} {
+		c := trainCase("big-segment", 3, 1, sizes[0]+8, 11*k, []train{{port: 4000 + k, sizes: sizes}})
+		c.Slots[1].CInt = k%2 == 0
+		if len(sizes) > 2 {
+			c = trainCase("big-segment", 5, 3, sizes[0]+8, 11*k, []train{{port: 4000 + k, sizes: sizes}})
+			c.Slots[3].CInt = true
+		}
+		out = append(out, c)
+	}
+	return out
 }
 
 func unitRecv() []*Case {
@@ -1564,8 +1593,18 @@ func genBatches(seed int64, count int) []lbBatch {
 	r := rand.New(rand.NewSource(seed*7919 + 18))
 	var out []lbBatch
 	fixed := []int{1, 2, 63, 64, 65, 127, 128}
+	// segment sizes around 2^15 and at the maximum payload: runs of exactly two
+	big := [][]int{{40000, 20000}, {32768, 32739}, {32767, 32740}, {32769, 100}, {65000, 507}, {65507}}
 	for len(out) < count {
 		i := len(out)
+		if j := i - len(fixed); j >= 0 && j < len(big) {
+			caps := make([]int, len(big[j]))
+			for k := range caps {
+				caps[k] = 1 << 17
+			}
+			out = append(out, lbBatch{big[j], caps})
+			continue
+		}
 		var sizes []int
 		cnt := 1 + r.Intn(128)
 		if i < len(fixed) {
@@ -1709,7 +1748,7 @@ func replayAnyLoopback(cs []*Case) map[string]any {
 			rxp = append(rxp, c)
 		} else if strings.HasPrefix(c.Pass, "dual_") {
 			dual = append(dual, c)
-		} else if c.Pass == "wire_partial" || c.Pass == "wire_eio" {
+		} else if c.Pass == "wire_partial" || c.Pass == "wire_eio" || c.Pass == "wire_eio_partial" {
 			inject = append(inject, c)
 		} else if strings.HasPrefix(c.Pass, "wire_") || strings.HasPrefix(c.Pass, "pool_") {
 			other = append(other, c)
@@ -1935,6 +1974,9 @@ func main() {
 			take(c)
 		}
 		for _, c := range unitRecv() {
+			take(c)
+		}
+		for _, c := range bigRecv() {
 			take(c)
 		}
 		if !*nof4 {
